@@ -153,6 +153,10 @@ type decision9 struct {
 	victimSeen map[uint64]bool // victims reported through OnEvict (also with a nil value)
 	nReal      int
 	fitsExp    bool
+	captured   bool // post-decision accounting captured under the policy lock
+	postUsed   int64
+	postMax    int64
+	postSum    int64
 	lowering   bool
 	added      bool
 	wasRes     bool
@@ -311,24 +315,49 @@ func (e *Engine) hooks() *ristretto.VerifHooks {
 	if e.plan.Flags.Race {
 		// race flavour: no observers that touch engine state from several tasks
 		return &ristretto.VerifHooks{
-			Yield:     core.Yield,
-			TaskStart: func(kind int, obj ristretto.VerifReadier) { core.TaskStart(kind, obj) },
-			TaskEnd:   core.TaskEnd,
-			Idle:      core.Idle,
-			RangePick: hookRangePick,
-			Stripe:    hookStripe,
+			Yield:         core.Yield,
+			TaskStart:     func(kind int, obj ristretto.VerifReadier) { core.TaskStart(kind, obj) },
+			TaskEnd:       core.TaskEnd,
+			Idle:          core.Idle,
+			RangePick:     hookRangePick,
+			Stripe:        hookStripe,
+			MutexLocked:   core.MutexLocked,
+			MutexUnlocked: core.MutexUnlocked,
 		}
 	}
 	return &ristretto.VerifHooks{
-		Yield:     core.Yield,
-		Event:     hookEvent,
-		TaskStart: func(kind int, obj ristretto.VerifReadier) { core.TaskStart(kind, obj) },
-		TaskEnd:   core.TaskEnd,
-		Idle:      core.Idle,
-		RangePick: hookRangePick,
-		RangeSeen: hookRangeSeen,
-		Stripe:    hookStripe,
+		Yield:          core.Yield,
+		Event:          hookEvent,
+		TaskStart:      func(kind int, obj ristretto.VerifReadier) { core.TaskStart(kind, obj) },
+		TaskEnd:        core.TaskEnd,
+		Idle:           core.Idle,
+		RangePick:      hookRangePick,
+		RangeSeen:      hookRangeSeen,
+		Stripe:         hookStripe,
+		MutexLocked:    core.MutexLocked,
+		MutexUnlocking: hookMutexUnlocking,
+		MutexUnlocked:  core.MutexUnlocked,
 	}
+}
+
+// hookMutexUnlocking: the policy lock is about to be released. At the end of
+// an admission decision this is the last moment at which the accounting can be
+// read atomically with the decision (a preemption point follows the release).
+func hookMutexUnlocking(kind int) {
+	e := E
+	if kind != 2 || !e.dec9.active || e.dec9.captured {
+		return
+	}
+	if t := e.sim.Self(); t == nil || t.Kind != core.KindApplier {
+		return
+	}
+	d := &e.dec9
+	kcs, used, max := e.api.PolicyCostsLocked()
+	d.postUsed, d.postMax, d.postSum = used, max, 0
+	for _, kc := range kcs {
+		d.postSum += kc.Cost
+	}
+	d.captured = true
 }
 
 func hookRangePick(site int, keys []uint64) int {
@@ -443,7 +472,7 @@ func hookEvent(kind int, key uint64, a, b int64) {
 				v := q[0]
 				e.pendQ[key] = q[1:]
 				e.curNew = v
-				if v.TTL > 0 && v.RetT != 0 && time.Now().UnixNano() > v.RetT+v.TTL {
+				if v.TTL > 0 && v.RetT != 0 && time.Now().UnixNano() > satAdd(v.RetT, v.TTL) {
 					probe(PrLateApply)
 				}
 			}
@@ -908,6 +937,9 @@ func (e *Engine) clockDecision() {
 			v := e.vals[i]
 			if v == nil || v.TTL <= 0 || v.NExit > 0 {
 				continue
+			}
+			if v.TTL > 1<<50 {
+				continue // years away
 			}
 			for _, x := range []int64{v.InvT + v.TTL, v.RetT + v.TTL} {
 				if x > now && (best == 0 || x < best) && v.RetT != 0 {
